@@ -75,3 +75,37 @@ contract('lemma.C04_lang_snoc_base', params=dict(self=CSSMATCH, old=LCT, r=NODE,
 contract('lemma.C04_lang_snoc_step', params=dict(self=CSSMATCH, old=LCT, r=NODE, v=TOpt(STR), i=INT), opaque_specs=['meta_lang', 'meta_applies'],
          requires=['0 <= i < len(old)', 'lang_cache_ok(self, old, i)', 'lang_cache_ok(self, old + [(r, v)], i + 1)'],
          ensures=['lang_cache_ok(self, old + [(r, v)], i)'], properties=['C04'])
+
+from pyvc.tree import OPT_ATTRVAL, SEQ_NODE   # noqa: E402
+ICT = TSeq(TTup(NODE, OPT_ATTRVAL, BOOL))
+_GC = 'group_checked(self, f, n, desc_spec(self, f, True, True), 0, None)'
+contract('lemma.C04_indet_snoc_base', params=dict(self=CSSMATCH, old=ICT, f=NODE, n=OPT_ATTRVAL, v=BOOL, i=INT), opaque_specs=['group_checked'],
+         requires=['i == len(old)', 'f is not None', f'v == (not {_GC})'],
+         ensures=['indet_cache_ok(self, old + [(f, n, v)], i)'], properties=['C04'])
+contract('lemma.C04_indet_snoc_step', params=dict(self=CSSMATCH, old=ICT, f=NODE, n=OPT_ATTRVAL, v=BOOL, i=INT), opaque_specs=['group_checked'],
+         requires=['0 <= i < len(old)', 'indet_cache_ok(self, old, i)', 'indet_cache_ok(self, old + [(f, n, v)], i + 1)'],
+         ensures=['indet_cache_ok(self, old + [(f, n, v)], i)'], properties=['C04'])
+# leaving out an element that is not a checked member of the group does not change whether the group has a checked member
+contract('lemma.C17_exclude_base', params=dict(self=CSSMATCH, f=NODE, n=OPT_ATTRVAL, seq=SEQ_NODE, el=NODE, i=INT), opaque_specs=['checked_member'],
+         requires=['i >= len(seq) or i < 0'],
+         ensures=['group_checked(self, f, n, seq, i, el) == group_checked(self, f, n, seq, i, None)'], properties=['C17'])
+contract('lemma.C17_exclude_step', params=dict(self=CSSMATCH, f=NODE, n=OPT_ATTRVAL, seq=SEQ_NODE, el=NODE, i=INT), opaque_specs=['checked_member'],
+         requires=['0 <= i < len(seq)', 'not checked_member(self, el, n, f)',
+                   'group_checked(self, f, n, seq, i + 1, el) == group_checked(self, f, n, seq, i + 1, None)'],
+         ensures=['group_checked(self, f, n, seq, i, el) == group_checked(self, f, n, seq, i, None)'], properties=['C17'])
+# :not([checked]) holds at el  ==>  the radio scan never sees a `checked` attribute on el, so el is not a checked member of any group
+# (the link between the guard of CSS_INDETERMINATE's last compound and the assumption of match_indeterminate)
+from pyvc.tree import SEQ_ATTR   # noqa: E402
+_RS = dict(self=CSSMATCH, el=NODE, seq=SEQ_ATTR, i=INT, nm=OPT_ATTRVAL, r=BOOL, n=BOOL, sf=BOOL)
+contract('lemma.C17_guard_base', params=_RS, requires=['i >= len(seq) or i < 0'],
+         ensures=['not radio_scan(self, seq, i, nm, r, False, n, sf)'], properties=['C17'])
+contract('lemma.C17_guard_step_ns', params=_RS,
+         requires=['0 <= i < len(seq)', "find_attr(self, None, el, 'checked', None, seq, i) is None",
+                   'not radio_scan(self, seq, i + 1, nm, r or ((seq[i][0] if self.is_xml else ascii_lower(seq[i][0])) == "type" and ascii_lower(as_str(seq[i][1])) == "radio"), False, '
+                   'n or ((seq[i][0] if self.is_xml else ascii_lower(seq[i][0])) == "name" and seq[i][1] == nm), sf)'],
+         ensures=['not radio_scan(self, seq, i, nm, r, False, n, sf)'], properties=['C17'])
+contract('lemma.C17_guard_step_ci', params=_RS,
+         requires=['0 <= i < len(seq)', 'not self.is_xml', "find_ci(seq, 'checked', i) is None",
+                   'not radio_scan(self, seq, i + 1, nm, r or (ascii_lower(seq[i][0]) == "type" and ascii_lower(as_str(seq[i][1])) == "radio"), False, '
+                   'n or (ascii_lower(seq[i][0]) == "name" and seq[i][1] == nm), sf)'],
+         ensures=['not radio_scan(self, seq, i, nm, r, False, n, sf)'], properties=['C17'])
